@@ -105,6 +105,14 @@ theorem readOne_continuation_gen (cfg : Cfg) (bs : List Byte) (o : Obj) (pos : N
       (readAll genTables { cfg with one := false } (bs.drop pos)).shift [o] pos :=
   SlipVerif.Theorems.C02.readOne_continuation genTables step_total cont_ok cfg bs o pos h
 
+/-- `n` consecutive `(read stream)` calls return the first `n` objects of the whole-text reading and
+    then the eof value, for the current tables -/
+theorem hist_reads_are_the_forms_gen (cfg : Cfg) (text : List Byte) (n c : Nat) (code : List Obj) (p lc : Nat)
+    (hc : c ≤ text.length) (hok : readAll genTables { cfg with one := false } (text.drop c) = .ok code p) :
+    (runHist genTables cfg text { cursor := c, lastChar := lc } (List.replicate n .read)).2 =
+      (code.take n).map HOut.form ++ List.replicate (n - code.length) HOut.eof :=
+  SlipVerif.Theorems.C02.hist_reads_are_the_forms genTables step_total cont_ok cfg text n c code p lc hc hok
+
 /-- in a stream history a `read` never moves the cursor beyond the text, for the current tables -/
 theorem hist_read_cursor_le_gen (cfg : Cfg) (text : List Byte) (s : HState) (hc : s.cursor ≤ text.length) :
     (hstep genTables cfg text s .read).1.cursor ≤ text.length :=
